@@ -9,7 +9,7 @@
 #define KEY_OK (SES(HARG0) != CK_INVALID_HANDLE && K0 < VP_NOBJ && OBJX(K0, VALID))
 
 #define K_INIT_GATE(FLAG) \
-  __CPROVER_requires(VP_FRESH_GHOST && !(TOK(SO) && TOK(USER)) && SES(HOBJ0) != SES(HOBJ1) && SES(OPTYPE) <= 0x10) \
+  __CPROVER_requires(VP_FRESH_GHOST && !(TOK(SO) && TOK(USER)) && (!TOK(SO) || SES(RW)) && SES(HOBJ0) != SES(HOBJ1) && SES(OPTYPE) <= 0x10) \
   /* C12: a second operation cannot be started while one is active; the active one is left alone */ \
   __CPROVER_ensures((SES(INIT) && SES(VALID) && !SES(MECH_NULL) && !SES(TOKEN_NULL) && SES(OPTYPE) != 0) ==> (RV == CKR_OPERATION_ACTIVE && VP_NO_EFFECT)) \
   /* not initialised / bad session / bad key handle: refused without effect */ \
